@@ -53,7 +53,7 @@ def prep_outfile(eng, st, args, kwargs, line):
     bits = VObj(eng.new_oid(st, {"nbits": nbits}), "BitsInfo", "sigpyproc/io/bits.py")
     w = VObj(eng.new_oid(st, {"file_obj": fo, "bitsinfo": bits, "rescale": kwargs.get("rescale", VBool(False)),
                               "usamples": us, "nwrites": VInt(0), "out_header": out_hdr, "ifile_cur": VInt(0),
-                              "closed": VBool(False)}),
+                              "closed": VBool(False), "fname": filename if filename is not None else NONE}),
              "FileWriter", "sigpyproc/io/fileio.py")
     st.ghost.setdefault("writers", [])
     st.ghost["writers"] = st.ghost["writers"] + [w]
@@ -119,6 +119,43 @@ def cwrite(eng, st, args, kwargs, line):
 
 
 MODELS["repo:sigpyproc/io/fileio.py::FileWriter.cwrite"] = cwrite
+
+
+def _same_name(a, b):
+    """Two file-name values are the same name: the same symbolic value, the same opaque parameter, or equal strings."""
+    if a is None or b is None:
+        return False
+    if a is b:
+        return True
+    if isinstance(a, VOpaque) and isinstance(b, VOpaque):
+        return a.what == b.what and a.what != ""
+    if isinstance(a, VStr) and isinstance(b, VStr):
+        return a.s is not None and a.s == b.s
+    return False
+
+
+def edit_header(eng, st, args, kwargs, line):
+    """sigproc.edit_header(filename, key, value) rewrites header bytes of an existing file in place (seek + write). On a
+    file this function has prepared for output (same file-name value) that is a header write after the header - and
+    after the data when blocks have been written - plus a repositioning: exactly what the append-only typestate forbids."""
+    args = [a for a in args if a is not None]  # plain function: no receiver
+    fname = args[0] if args else kwargs.get("filename")
+    hit = False
+    for w in st.ghost.get("writers", []):
+        f = st.objs[w.oid]
+        if _same_name(f.get("fname"), fname):
+            fo = st.objs[f["file_obj"].oid]
+            fo["hdr_after_data"] = VBool(z3.Or(eng.to_bool(fo["hdr_after_data"]), fo["nbytes"].t > 0))
+            fo["hdr_writes"] = VInt(fo["hdr_writes"].t + 1)
+            fo["seeks"] = VInt(fo["seeks"].t + 1)
+            hit = True
+    if not hit:
+        raise OutOfSubset(f"line {line}: edit_header of a file this function did not prepare")
+    eng.assume_tag("A-IO")
+    return val(st, NONE)
+
+
+MODELS["repo:sigpyproc/io/sigproc.py::edit_header"] = edit_header
 
 
 def wclose(eng, st, args, kwargs, line):
